@@ -125,3 +125,65 @@ Theorem legacy_flags_eq reflen recs wrap a b pad : (0 <= a)%Z ->
   let '(s, e) := legacy_flags a b in
   toma_cmd reflen recs wrap s e pad = toma_cmd reflen recs wrap (a + 1) b pad.
 Proof. intros Ha. unfold legacy_flags. destruct (Z.eqb_spec a (-1)); [lia|reflexivity]. Qed.
+
+(* ---------- composition: the flattened row of a block, position by position ---------- *)
+Lemma transpose_nth n : forall rows i, (i < n)%nat -> Forall (fun r => length r = n) rows ->
+  nth i (transpose_n n rows) [] = map (fun r => nth i r 0) rows.
+Proof.
+  induction n as [|n IH]; intros rows i Hi Hl; [lia|]. cbn [transpose_n]. destruct i as [|i]; cbn [nth].
+  - apply map_ext_in. intros r Hr. rewrite Forall_forall in Hl. specialize (Hl r Hr). destruct r; [discriminate|reflexivity].
+  - rewrite IH; [|lia|].
+    + rewrite map_map. apply map_ext_in. intros r Hr. rewrite Forall_forall in Hl. specialize (Hl r Hr). destruct r; [discriminate|reflexivity].
+    + apply Forall_forall. intros r Hr. apply in_map_iff in Hr as (r0 & <- & Hr0). rewrite Forall_forall in Hl. specialize (Hl r0 Hr0).
+      destruct r0; [discriminate|]. cbn in *. lia.
+Qed.
+Lemma transpose_length n rows : length (transpose_n n rows) = n.
+Proof. revert rows; induction n as [|n IH]; intros rows; cbn; [reflexivity|]. rewrite IH. reflexivity. Qed.
+Lemma nuc_single b : nuc_from_site [b] = b.
+Proof.
+  unfold nuc_from_site. cbn [dedup_bytes fold_right existsb]. cbn [filter]. destruct (is_letter b); cbn [length Nat.ltb Nat.leb fold_left]; lia.
+Qed.
+
+Theorem flatten_rows_nth n rows i : rows <> [] -> (i < n)%nat -> Forall (fun r => length r = n) rows ->
+  nth i (flatten_rows n rows) 0 = nuc_from_site (map (fun r => nth i r 0) rows).
+Proof.
+  intros Hne Hi Hl. unfold flatten_rows. destruct rows as [|r [|r2 t]]; [congruence| |].
+  - cbn [map]. rewrite nuc_single. reflexivity.
+  - rewrite (nth_indep _ 0 (nuc_from_site [])) by (rewrite map_length, transpose_length; exact Hi).
+    rewrite map_nth. rewrite transpose_nth by assumption. reflexivity.
+Qed.
+
+Lemma all_some_spec {A} (l : list (option A)) r : all_some l = Some r -> l = map Some r.
+Proof.
+  revert r; induction l as [|[a|] t IH]; intros r H; cbn in H; try discriminate; [injection H as <-; reflexivity|].
+  destruct (all_some t) as [rt|]; [|discriminate]. injection H as <-. cbn. rewrite (IH rt eq_refl). reflexivity.
+Qed.
+
+(* the row of a query block before the flank rewrite: reference length, and at EVERY reference position the flattening of
+   the cells its records' CIGARs align there (a base, '-' for a deletion, '*' for nothing) *)
+Theorem toma_block_row_spec reflen block raw : block <> [] -> seq_from_block reflen block = Some raw ->
+  length raw = reflen /\
+  forall i, (i < reflen)%nat ->
+    nth i raw 0 = nuc_from_site (map (fun r => cell_byte (aligned (s_cigar r) 0 (s_pos r) (s_seq r) i)) block).
+Proof.
+  intros Hne H. unfold seq_from_block in H.
+  destruct (all_some (map (fun r => one_line (s_pos r) (s_cigar r) (s_seq r) reflen) block)) as [rows|] eqn:E; [|discriminate].
+  injection H as <-. apply all_some_spec in E.
+  assert (Hrows : Forall2 (fun r row => one_line (s_pos r) (s_cigar r) (s_seq r) reflen = Some row) block rows).
+  { clear Hne. revert rows E. induction block as [|r t IH]; intros [|row rows] E; cbn in E; try discriminate; [constructor|].
+    injection E as E1 E2. constructor; [exact E1|apply IH; exact E2]. }
+  assert (Hlen : Forall (fun r => length r = reflen) (map (map cell_byte) rows)).
+  { apply Forall_forall. intros x Hx. apply in_map_iff in Hx as (row & <- & Hrow). rewrite map_length.
+    clear -Hrows Hrow. induction Hrows as [|r row' t rows' H1 H2 IH]; [contradiction|].
+    destruct Hrow as [->|Hrow]; [apply (one_line_cell _ _ _ _ _ H1)|apply IH; exact Hrow]. }
+  assert (Hne2 : map (map cell_byte) rows <> []).
+  { destruct block; [congruence|]. inversion Hrows; subst. discriminate. }
+  split.
+  - unfold flatten_rows. destruct (map (map cell_byte) rows) as [|r0 [|r1 t]] eqn:Er; [congruence| |].
+    + inversion Hlen; assumption.
+    + rewrite map_length, transpose_length. reflexivity.
+  - intros i Hi. rewrite (flatten_rows_nth reflen _ i Hne2 Hi Hlen). f_equal. rewrite map_map.
+    clear -Hrows Hi. induction Hrows as [|r row t rows' H1 H2 IH]; [reflexivity|]. cbn [map]. rewrite IH. f_equal.
+    destruct (one_line_cell _ _ _ _ _ H1) as [L C]. rewrite <- (C i Hi).
+    rewrite (nth_indep _ 0 (cell_byte Star)) by (rewrite map_length, L; exact Hi). apply map_nth.
+Qed.
